@@ -377,18 +377,20 @@ def main():
     # ---- extended domain (oracle only): lazy-stack originals, unlocked / locked through the stack / locked only through the members
     for i in range(120 if quick else 1200):
         n1 = rng.choice(["transpose", "permute", "unsqueeze", "flatten", "unflatten", "view", "squeeze", "flatten_keys", "unflatten_keys", "lock_", "unlock_"])
-        st = L.gen_state(rng, rank=rng.choice([1, 2, 3]), for_op=n1 if n1 == "unflatten_keys" else None)
+        st = L.gen_state(rng, rank=rng.choice([1, 2, 3, 3, 4]), for_op=n1 if n1 == "unflatten_keys" else None)
         lock = rng.choice(["no", "no", "stack", "members", "relocked"])
-        st = (tuple(max(d, 2) if j == 0 else d for j, d in enumerate(st[0])), None, [k for k in st[2]], lock != "no")
+        lsd = rng.randrange(len(st[0]))          # the stack dim of the lazy original: every position, ranks 1-4
+        st = (tuple(max(d, 2) if j == lsd else d for j, d in enumerate(st[0])), None, [k for k in st[2]], lock != "no")
         op1 = L.gen_canonical(rng, st, n1)
         sp1 = rng.choice(L.spellings(op1, st))
         edits = rng.choice([[], [("value",)], [("value",)]] if st[3] else [[], [("value",)], [("add", ("z",))], [("rebind", "new")], [("swap",)]])
-        case = {"container": "lazy", "lock": lock, "op": list(op1), "spelling": [list(sp1[0]), sp1[1]], "edits": [list(e) for e in edits], "state": L.enc_state(st)}
+        case = {"container": "lazy", "stack_dim": lsd, "lock": lock, "op": list(op1), "spelling": [list(sp1[0]), sp1[1]], "edits": [list(e) for e in edits], "state": L.enc_state(st)}
         run.case(json.dumps(case, default=str))
         # phase 1: the call and the edits (lazy stacks refuse several shape ops / edits by design: not judged)
         try:
-            lz = L.build_lazy(st, lock)
-            ref = L.build_lazy(st, lock)
+            lz = L.build_lazy(st, lock, lsd)
+            # the reference is the DENSE tensordict with the same content (the by-hand inverse must not go through _lazy.py)
+            ref = L.build((st[0], None, st[2], st[3]))
             members = list(lz.tensordicts)
             held = [{k: m.get(k) for k in L.leaf_keys(m)} for m in members]
             with L.time_limit(30.0):
